@@ -50,8 +50,14 @@ pub fn run(ctx: &Ctx, rep: &mut Report) {
             if (state / 1024) % ctx.nshards != ctx.shard {
                 continue;
             }
-            for _ in 0..contexts {
-                if n % 64 == 0 {
+            for cx in 0..contexts {
+                if cx % 2 == 1 {
+                    // complement every bit outside the type and the state: together with the
+                    // previous context each of them has taken both values for this state
+                    for (i, byte) in base.iter_mut().enumerate() {
+                        *byte = if i == 0 { (t << 2) | (!*byte & 3) } else { !*byte };
+                    }
+                } else if n % 64 == 0 || cx > 0 {
                     base = r.bytes(21);
                     base[0] = (t << 2) | (base[0] & 3);
                 }
